@@ -59,6 +59,12 @@ func dcgHandle(c map[string]J) map[string]J {
 		q = fmt.Sprintf("phrase(s(V1), %s).", input)
 	case "gen":
 		q = "phrase(s(V1), V2)."
+	case "rem1", "rem2":
+		k := 1
+		if mode == "rem2" {
+			k = 2
+		}
+		q = fmt.Sprintf("phrase(s(V1), %s, [%s]).", input, strings.Join(in[len(in)-k:], ","))
 	}
 	want := normEvents(c["events"].([]J))
 	for _, path := range []string{"consult", "expand_term"} {
